@@ -217,11 +217,14 @@ class Model:
                                                     "===" if e["id"] else "=", E.render(rhs))))
         self._valid = {}
 
-    def source(self):
+    def source(self, reverse=False):
+        """reverse=True writes the equations in reversed order (the meaning is the same; the model then has to be
+        put into sequential order by Sequential.sequentialize before it is simulated)"""
         out = []
         if self.par_names:
             out += ["!parameters", "    " + ", ".join(self.par_names)]
-        out += ["!equations"] + ["    %s;" % e["text"] for e in self.eqs]
+        eqs = list(reversed(self.eqs)) if reverse else self.eqs
+        out += ["!equations"] + ["    %s;" % e["text"] for e in eqs]
         return "\n".join(out) + "\n"
 
     def key(self):
@@ -397,8 +400,10 @@ def in_range(M, ref_tab):
 # one case = one (model, plan, presence, residual mode, variants, options) under both orders
 # ---------------------------------------------------------------------------
 
-def build_irispie_model(M, nv, seed):
-    m = ir.Sequential.from_string(M.source())
+def build_irispie_model(M, nv, seed, reverse=False):
+    m = ir.Sequential.from_string(M.source(reverse=reverse))
+    if reverse:
+        m.sequentialize()
     p0 = M.param_values(seed, 0)
     if p0:
         m.assign(**p0)
@@ -426,7 +431,8 @@ def run_case(M, m, case, res, ctx_seed):
     span = START >> (START + T - 1)
     db = None
     outs = {}
-    ckey = "%s#%r#%s#%d#%d#" % (M.key(), None if not plan else (plan["entries"], plan.get("present")), resmode, nv, prepend)
+    ckey = "%s#%r#%s#%d#%d#%s" % (M.key(), None if not plan else (plan["entries"], plan.get("present")), resmode, nv, prepend,
+                                     "reversed" if case.get("reverse") else "")
     seen = res.__dict__.setdefault("_c17_seen", set())
 
     def cls_once(name, value):
@@ -570,6 +576,22 @@ def run_model_cases(spec, cases, res, seed):
             for o in c.get("orders", ORDERS):
                 res.exclude("order_reads_before_write")
             continue
+        bkey = (nv, bool(c.get("reverse")))
+        if c.get("reverse"):
+            # written backwards, then sequentialized: only meaningful where a sequential order exists
+            if not M.valid("dates_equations") or M.n < 2:
+                continue
+            if bkey not in built:
+                try:
+                    built[bkey] = build_irispie_model(M, nv, seed, reverse=True)
+                    res.count("models_built_reversed_then_sequentialized")
+                except Exception as e:
+                    res.violation("build_exception", dict(error=type(e).__name__, reverse=True, lhs_transforms=[e_["tr"] for e_ in spec["eqs"]]),
+                                  dict(c, model=spec, seed=seed), "%s: %s\n%s" % (type(e).__name__, str(e)[:300], M.source(reverse=True)))
+                    built[bkey] = None
+            if built[bkey] is not None:
+                run_case(M, built[bkey], dict(c, model=spec), res, seed)
+            continue
         if nv not in built:
             try:
                 built[nv] = build_irispie_model(M, nv, seed)
@@ -632,6 +654,12 @@ def model_cases(spec, nvs=(1,)):
         sp = std_plan(spec)
         if sp:
             cases.append(dict(plan=sp, resmode="std", nv=nv, prepend=(nv == 2)))
+    # the same model written backwards and put in order by sequentialize(), simulated without and with the plan
+    if len(spec["eqs"]) >= 2:
+        cases.append(dict(plan=None, resmode="nonzero", nv=1, prepend=True, reverse=True))
+        sp = std_plan(spec)
+        if sp:
+            cases.append(dict(plan=sp, resmode="std", nv=1, prepend=False, reverse=True))
     return cases
 
 
@@ -866,6 +894,7 @@ def run(ctx, total, info):
     }
     required = QUICK_FLOORS if quick else THOROUGH_FLOORS
     info["floors"] = {k: (measured[k], required[k]) for k in required}
+    info["floors"]["models_reversed_then_sequentialized"] = (c["models_built_reversed_then_sequentialized"], 2500 if quick else 20000)
 
 
 # vacuity floors: 50-60 % of what the unchanged tree measures (quick: 51 540 evaluations, 6 740 models built,
@@ -890,7 +919,7 @@ THOROUGH_FLOORS = {     # measured: 914 748 evaluations, 51 524 models, 647 202 
 def replay(case):
     res = engine.Result()
     seed = int(case.get("seed", 0))
-    c = {k: case[k] for k in ("plan", "resmode", "nv", "prepend") if k in case}
+    c = {k: case[k] for k in ("plan", "resmode", "nv", "prepend", "reverse") if k in case}
     if "orders" in case:
         c["orders"] = case["orders"]
     run_model_cases(case["model"], [c], res, seed)
